@@ -417,20 +417,26 @@ WRITE_CALLEES = ["write_io_header", "write_io_footer"]
 
 def array_io_cells(tier, parts):
     cells = []
-    combos = [(1, "float"), (3, "float"), (3, "double")] if tier == "quick" else [(1, "float"), (1, "double"), (2, "float"), (3, "float"), (3, "double"), (4, "double")]
-    for m, t in combos:
-        d = {"DIMS_OUT": m, "OUT_SCALAR_T": t}
-        if "read" in parts:
-            for fl in ("debug", "ndebug"):
-                cells.append(Cell("io.array.read.M%d.%s.%s" % (m, t, fl), "array_io", "h_array_read_binary", defines=d, flavour=fl,
-                                  enforce="array_read_binary", replace=READ_CALLEES, loop_contracts=True,
-                                  unwindset=["array_read_binary.0:%d" % (m + 1)], object_bits=12, backends=(("sat", 900),), split=8,
-                                  closes_loops="element loop: loop contract with ghost element index, symbolic count up to 2^32; component loop: unwinding to M",
-                                  replay=None))
-        if "write" in parts:
+    if tier == "quick":
+        rcombos = [(1, "float", "ndebug"), (1, "double", "debug")]
+        wcombos = [(1, "float")]
+    else:
+        rcombos = [(m, t, fl) for m, t in ((1, "float"), (1, "double"), (3, "float"), (3, "double"), (2, "double")) for fl in ("debug", "ndebug")]
+        wcombos = [(1, "float"), (1, "double"), (3, "float"), (3, "double")]
+    if "read" in parts:
+        for m, t, fl in rcombos:
+            d = {"DIMS_OUT": m, "OUT_SCALAR_T": t}
+            cells.append(Cell("io.array.read.M%d.%s.%s" % (m, t, fl), "array_io", "h_array_read_binary", defines=d, flavour=fl,
+                              enforce="array_read_binary", replace=READ_CALLEES, loop_contracts=True,
+                              unwindset=["array_read_binary.0:%d" % (m + 1)], object_bits=12, backends=(("sat", 1500),), split=7,
+                              closes_loops="element loop: loop contract with ghost element index, symbolic count up to 2^32; component loop: unwinding to M",
+                              note="both on-disk widths (4 and 8) in one cell: widening is exact, narrowing is the cast's round-to-nearest", replay=None))
+    if "write" in parts:
+        for m, t in wcombos:
+            d = {"DIMS_OUT": m, "OUT_SCALAR_T": t}
             cells.append(Cell("io.array.write.M%d.%s" % (m, t), "array_io", "h_array_write_binary", defines=d,
                               enforce="array_write_binary", replace=WRITE_CALLEES, loop_contracts=True,
-                              unwindset=["array_write_binary.0:%d" % (m + 1)], object_bits=12, backends=(("sat", 900),), split=8,
+                              unwindset=["array_write_binary.0:%d" % (m + 1)], object_bits=12, backends=(("sat", 1500),), split=7,
                               closes_loops="element loop: loop contract with ghost element index, symbolic count up to 2^32; component loop: unwinding to M",
                               replay=None))
     return cells
@@ -440,13 +446,26 @@ def cells_C08(tier, consts):
     return binio_cells(tier) + array_io_cells(tier, ["read"])
 
 
+def cells_C06(tier, consts):
+    return binio_cells(tier) + array_io_cells(tier, ["read", "write"])
+
+
+PROPS["C06"] = {
+    "claimed": False,
+    "level_text": "", "level_note": "",
+    "cells": cells_C06, "consts": True,
+    "explanation": "", "trusted_base": [], "assumptions": [], "not_covered": [],
+}
+
+
 PROPS["C08"] = {
-    "level_text": "read_binary<T> (uint32_t, uint64_t, float, double), read_io_header and read_io_footer proved against 'throws iff fewer bytes than needed are available / magic or tag differ; the value returned is the bytes read' for every stream content, length and position",
+    "level_text": "read_binary<T> (uint32_t, uint64_t, float, double), read_io_header and read_io_footer proved against 'throws iff fewer bytes than needed are available / magic or tag differ; the value returned is the bytes read' for every stream content, length and position; array::read_binary proved to return normally iff the stream holds a complete well-formed array image (header, width in {4,8}, count, count*M scalars, footer) and to throw otherwise (element loop closed by a loop contract, count symbolic)",
     "level_note": "std::istream modelled by the ghost byte-stream contract of stubs/stream.h; exception propagation modelled by rule R14",
     "design_ref": "DESIGN.md section 5 (C06/C07/C08)",
     "cells": cells_C08, "consts": True,
     "explanation": "binary IO primitives extracted and verified over a ghost byte stream",
     "trusted_base": ["ghost stream model of std::istream::read / std::ostream::write (stubs/stream.h)"],
-    "assumptions": ["the stream handed to the reader is initially good()"],
-    "not_covered": [],
+    "assumptions": ["the stream handed to the reader is initially good()",
+                    "truncation theorem (meta-level): a reader that returns normally consumed exactly the image length through read_binary<T> calls, so on a proper prefix some read_binary<T> sees a short stream and throws, and rule R14 propagates it"],
+    "not_covered": ["count words above 2^32 elements (allocation failure / memory exhaustion)", "layer readers other than the array backend are covered by C06's framing cells"],
 }
